@@ -196,6 +196,11 @@ def check_fallback(ctx, chk, tag, value, j, o, y2d, t2d, layouts=None):
     want = App("getitem", (App("getitem", (x2d, am)), Tup([j, Const(0)])))
     from ..terms import subst as _subst
     want, value = _subst(want, {}), _subst(value, {}) if hasattr(value, "key") else value
+    if not same(value, want):
+        # the same closest sample read from the 1-d x (no unit axis): x[argmin_over_points |y - t|][j]
+        cand = _subst(App("getitem", (App("getitem", (X, am)), j)), {})
+        if same(value, cand):
+            want = cand
     if layouts and "targets-first" in layouts and not same(value, want):
         # targets-first layout: the closest sample is searched along axis 1 of |y (1, N) - t (T, 1)| and read from the 1-d x
         _a, _b, t2dB, y2dB = layouts["targets-first"]
